@@ -234,37 +234,125 @@ func vfFreezeClock(on bool) {}
 // vfFieldLen returns the length of the map/slice/chan reached from pointer x through the
 // named (possibly unexported) fields.
 func vfFieldLen(x any, path string) int {
-	v := reflect.ValueOf(x)
-	for _, name := range strings.Split(path, ".") {
-		for v.Kind() == reflect.Ptr || v.Kind() == reflect.Interface {
-			v = v.Elem()
-		}
-		v = v.FieldByName(name)
+	v, ok := vfPeekPath(x, path)
+	if !ok {
+		return -1
 	}
-	for v.Kind() == reflect.Ptr || v.Kind() == reflect.Interface {
-		v = v.Elem()
+	switch v.Kind() {
+	case reflect.Map, reflect.Slice, reflect.Chan:
+		return v.Len()
 	}
-	return v.Len()
+	return -1
 }
 
-func vfFieldAddr(x any, path string) reflect.Value {
+// vfPeekPath follows named (possibly unexported) fields; ok is false when a name does not exist
+// on this tree (internals renamed): callers then skip the assertion that needed it.
+func vfPeekPath(x any, path string) (reflect.Value, bool) {
+	v := reflect.ValueOf(x)
+	for _, name := range strings.Split(path, ".") {
+		for v.Kind() == reflect.Ptr || v.Kind() == reflect.Interface {
+			if v.IsNil() {
+				return v, false
+			}
+			v = v.Elem()
+		}
+		if v.Kind() != reflect.Struct {
+			return v, false
+		}
+		v = v.FieldByName(name)
+		if !v.IsValid() {
+			return v, false
+		}
+	}
+	for v.Kind() == reflect.Ptr || v.Kind() == reflect.Interface {
+		if v.IsNil() {
+			return v, false
+		}
+		v = v.Elem()
+	}
+	return v, true
+}
+
+// vfMapHas: does the internal map reached by path hold key? -1 when the names do not resolve.
+func vfMapHas(x any, path string, key string) int {
+	v, ok := vfPeekPath(x, path)
+	if !ok || v.Kind() != reflect.Map || v.Type().Key().Kind() != reflect.String {
+		return -1
+	}
+	if v.MapIndex(reflect.ValueOf(key).Convert(v.Type().Key())).IsValid() {
+		return 1
+	}
+	return 0
+}
+
+// vfMapFieldIs: is map[key].field (through one pointer) identical to want? -1 when the names do
+// not resolve on this tree.
+func vfMapFieldIs(x any, path string, key string, field string, want any) int {
+	v, ok := vfPeekPath(x, path)
+	if !ok || v.Kind() != reflect.Map || v.Type().Key().Kind() != reflect.String {
+		return -1
+	}
+	et := v.Type().Elem()
+	if et.Kind() == reflect.Ptr {
+		et = et.Elem()
+	}
+	if et.Kind() != reflect.Struct {
+		return -1
+	}
+	if _, ok := et.FieldByName(field); !ok {
+		return -1
+	}
+	e := v.MapIndex(reflect.ValueOf(key).Convert(v.Type().Key()))
+	if !e.IsValid() {
+		return 0
+	}
+	if e.Kind() == reflect.Ptr {
+		if e.IsNil() {
+			return 0
+		}
+		e = e.Elem()
+	}
+	f := e.FieldByName(field)
+	f = reflect.NewAt(f.Type(), unsafe.Pointer(f.UnsafeAddr())).Elem()
+	if f.Interface() == want {
+		return 1
+	}
+	return 0
+}
+
+func vfFieldAddr(x any, path string) (reflect.Value, bool) {
 	v := reflect.ValueOf(x)
 	for _, name := range strings.Split(path, ".") {
 		for v.Kind() == reflect.Ptr || v.Kind() == reflect.Interface {
 			v = v.Elem()
 		}
+		if v.Kind() != reflect.Struct {
+			return v, false
+		}
 		v = v.FieldByName(name)
+		if !v.IsValid() {
+			return v, false
+		}
 	}
 	if v.Kind() == reflect.Struct {
 		v = v.FieldByName("v") // sync/atomic typed integers
+		if !v.IsValid() {
+			return v, false
+		}
 	}
-	return reflect.NewAt(v.Type(), unsafe.Pointer(v.UnsafeAddr())).Elem()
+	if !v.CanInt() && !v.CanUint() {
+		return v, false
+	}
+	return reflect.NewAt(v.Type(), unsafe.Pointer(v.UnsafeAddr())).Elem(), true
 }
 
 // vfFieldGetUint / vfFieldSetUint read and write an integer field (plain or sync/atomic typed)
 // reached from pointer x through named, possibly unexported, fields.
 func vfFieldGetUint(x any, path string) uint64 {
-	v := vfFieldAddr(x, path)
+	v, ok := vfFieldAddr(x, path)
+	if !ok {
+		return 0
+	}
 	if v.CanUint() {
 		return v.Uint()
 	}
@@ -272,7 +360,10 @@ func vfFieldGetUint(x any, path string) uint64 {
 }
 
 func vfFieldSetUint(x any, path string, val uint64) {
-	v := vfFieldAddr(x, path)
+	v, ok := vfFieldAddr(x, path)
+	if !ok {
+		return
+	}
 	if v.CanUint() {
 		v.SetUint(val)
 	} else {
